@@ -309,6 +309,10 @@ def switch_on_variant(body, bb):
     m = {}
     for v, x in t["targets"]:
         m[names.get(v, str(v))] = x
+    # `let Some(x) = e else { .. }` / `if let`: the only variant without a target of its own takes the `otherwise` edge
+    missing = [n for n in names.values() if n not in m]
+    if len(missing) == 1 and body.term(t["otherwise"])["k"] != "unreachable":
+        m[missing[0]] = t["otherwise"]
     return rv["pl"], rv.get("adt"), m, t["otherwise"], [v["name"] for v in rv.get("variants", [])], rv.get("ty", "")
 
 
